@@ -721,3 +721,34 @@ Inductive callsite := CSSpeculative | CSPrecise | CSAsyncFunction | CSAsyncBlock
 Definition site_of_kind (k : fkind) : callsite :=
   match k with KSync | KAsync => CSPrecise | KBoxed => CSAsyncBlock | KHelper => CSAsyncFunction end.
 Definition default_name_source (k : fkind) : namesrc := NSAnnotated.
+
+(** * AsyncInfo::from_fn: when is a non-async fn "a function returning a boxed future"?
+
+    Its last expression must be a call whose callee path, written out as its segment identifiers joined by `::`
+    (`path_to_string`: no leading `::`, no generic arguments), ENDS WITH the text `Box::pin` -- so `Box::pin`,
+    `std::boxed::Box::pin`, `::std::boxed::Box::pin`, `alloc::boxed::Box::pin`, `Box::<_>::pin` are all that shape --
+    and whose first argument is an `async` block ([KBoxed]) or a call of an `async fn` declared in the body ([KHelper]).
+    A tail call that is not recognised leaves an ordinary fn ([KSync]): the attribute would then instrument the
+    *construction* of the future and the polls of the body would run outside the span.  The suffix text is read off
+    expand.rs by the translator (Gen_attr.gen_box_pin_suffix); the corpus terms compute their kind with [kind_of_tail]. *)
+Module AttrStrings.
+  Import Coq.Strings.String.
+  Local Open Scope string_scope.
+  Definition box_pin_suffix : string := "Box::pin".
+  Definition sep : string := "::".
+End AttrStrings.
+
+Fixpoint str_ends_with (s suf : String.string) : bool :=
+  if String.eqb s suf then true
+  else match s with String.EmptyString => false | String.String _ s' => str_ends_with s' suf end.
+Fixpoint path_to_string (segs : list String.string) : String.string :=
+  match segs with
+  | [] => String.EmptyString
+  | [x] => x
+  | x :: r => String.append x (String.append AttrStrings.sep (path_to_string r))
+  end.
+Definition box_pin_suffix : String.string := AttrStrings.box_pin_suffix.
+Definition tail_recognised (suffix : String.string) (callee : list String.string) : bool :=
+  str_ends_with (path_to_string callee) suffix.
+Definition kind_of_tail (suffix : String.string) (callee : list String.string) (k : fkind) : fkind :=
+  if tail_recognised suffix callee then k else KSync.
